@@ -5,7 +5,7 @@ from . import inputs, hist, edits, synth
 PROP = 'C11'
 LEVEL = 'exploration'
 WALL_CAP = {'quick': 300, 'thorough': 3000}
-RUNS = {'quick': 900, 'thorough': 20000}
+RUNS = {'quick': 4000, 'thorough': 40000}
 RULE = ('one run = up to 4 live models (actors): model 0 from a sample / synthesised file / API-built model; Copy steps (copy-construct, assign over an empty model, '
         'assign over a loaded model, copy of a copy) interleaved by the seeded scheduler with Edit (29 NifFile-level operations), Save (raw/default), Query (battery) '
         'and Destroy steps on any actor, the others being observed (raw save taken twice + geometry through shapes) before and after every step; survivors are used '
